@@ -51,8 +51,9 @@ PROFILE = {
 E2_PROFILE = {
     'max_pods': 2, 'max_racks': 3,
     'weights': {'app': 10, 'down': 4, 'up': 3, 'rmsrv': 3, 'srv': 3,
-                'rm': 4, 'reboot': 2, 'resize': 3, 'cellev': 2, 'reparent': 2},
-    'force': ['rm'],
+                'rm': 4, 'reboot': 2, 'resize': 3, 'cellev': 2, 'reparent': 2,
+                'retrait': 3},
+    'force': ['rm', 'retrait'],
     'max_ops': 24,
 }
 
@@ -208,6 +209,12 @@ def execute(case, stats):
                 ups = [(n, srv) for n, srv in ups if n == hint[1]]
             if ups:
                 sname, srv = ups[aimed % len(ups)]
+                if hint is not None and e2 and hint[0] == 'traits':
+                    probe_op[8] = [
+                        t for t in sim.decl_servers[sname]['trait_names']
+                        if t in gen.TRAIT_NAMES]
+                    probe_op[7] = None
+                    probe_op[5] = None
                 if hint is not None and not e2:
                     # make the probe as undemanding as the hinted server
                     # allows: default allocation of its partition, no group,
